@@ -667,3 +667,93 @@ def multiply_impls(ctx, facts, rule):
         ok = muls == [want.get(module, "?")]
         ctx.ob(rule, f"SecureMul<{module}::{m.group(2)}>", ok, f"dispatches to {want.get(module)}" if ok else f"SecureMul for a {module} context dispatches to {muls or 'nothing'} instead of {want.get(module)}: the multiplication is not covered by the proof / MAC of that context, so a tampered product is never detected", site_of(b))
     ctx.floor(rule, "SecureMul impls", n, 5)
+
+
+# ---------------------------------------------------------------------------------------------
+VALUE_WRAP = re.compile(r"(Deref::deref|Vec::<T, A>::as_slice|AsRef::as_ref|Borrow::borrow|Clone::clone|slice::<impl \[T\]>::to_vec|Try::branch|Future::poll|Pin::<Ptr>::new_unchecked|IntoFuture::into_future|From::from|Into::into)$")
+
+
+def is_value_of(e, target_rx):
+    """e is the value returned by a call matching target_rx, seen only through references, derefs, await/?
+    plumbing and identity-like conversions (not merely an expression that mentions it)."""
+    while isinstance(e, tuple) and e:
+        if e[0] == "call":
+            if re.search(target_rx, e[1]):
+                return True
+            if VALUE_WRAP.search(e[1]) and e[2]:
+                e = e[2][0]
+                continue
+            return False
+        if e[0] in ("proj", "ref", "deref", "cast", "copy", "move"):
+            e = e[1]
+            continue
+        if e[0] == "un" and len(e) > 2:
+            e = e[2]
+            continue
+        return False
+    return False
+
+
+def shuffle_verify_path(ctx, facts, rule):
+    """No input makes the shuffle verification vacuous: the only ways out of verify_shuffle with Ok are through the
+    role's hX_verify; inside h1/h2_verify every Ok lies behind the pass edge of every hash comparison, inside
+    h3_verify behind all three hash sends; the keys the tags are recomputed with are the opened MAC keys."""
+    ctx.rule(f"{rule}: verify_shuffle has no Ok of its own (every Ok return is the awaited h1/h2/h3_verify result, one arm per role, each after the awaited reveal_keys whose output is the `keys` argument); in h1_verify/h2_verify every Ok return is dominated by the pass edge of every hash comparison; in h3_verify by the completion of every hash send")
+    base = "protocol::ipa_prf::shuffle::malicious::"
+    vb = async_body(facts, base + "verify_shuffle")
+    if vb is None:
+        return ctx.missing(rule, "verify_shuffle")
+    ctx.count(bodies=1)
+    dom = vb.dominators()
+    rk = settled_calls(vb, r"shuffle::malicious::reveal_keys$")
+    rk_ok = len(rk) == 1 and rk[0][2] is not None and rk[0][2]["q"] is not None
+    ctx.ob(rule, "verify_shuffle:opens-keys", rk_ok, "reveal_keys(..).await? opens the MAC keys" if rk_ok else "verify_shuffle does not await/propagate reveal_keys exactly once", site_of(vb, rk[0][0]) if rk else site_of(vb))
+    readies = []
+    for h in ("h1_verify", "h2_verify", "h3_verify"):
+        cs = settled_calls(vb, r"shuffle::malicious::" + h + "$")
+        ok = len(cs) == 1 and cs[0][2] is not None
+        flows = False
+        keys_ok = False
+        if ok:
+            bb, t, st = cs[0]
+            readies.append(st["ready"])
+            if st["out"] is not None:
+                al = flow.local_aliases_fwd(vb, st["out"])
+                for x, idx, s_ in vb.iter_assigns():
+                    if s_["p"] == [0] and s_["r"]["k"] == "use" and F.op_local(s_["r"]["o"]) in al:
+                        flows = True
+            if st["q"] is not None:
+                flows = True
+            keys_ok = rk_ok and is_value_of(flow.expr_of(vb, t["args"][1]), r"shuffle::malicious::reveal_keys$") and flow.dominates(dom, rk[0][2]["ready"], bb)
+        ctx.ob(rule, f"verify_shuffle:{h}:verdict-returned", ok and flows, f"the {h} verdict is the function's result" if ok and flows else f"verify_shuffle does not return the awaited {h} verdict", site_of(vb, cs[0][0]) if cs else site_of(vb))
+        ctx.ob(rule, f"verify_shuffle:{h}:uses-opened-keys", keys_ok, "tags are recomputed with the opened keys" if keys_ok else f"{h} is not given the keys opened by reveal_keys (or runs before they are opened)", site_of(vb, cs[0][0]) if cs else site_of(vb))
+    early = [ob_ for ob_ in ok_blocks(vb) if not any(flow.dominates(dom, r, ob_) for r in readies)]
+    ctx.ob(rule, "verify_shuffle:no-ok-without-verify", not early, "no Ok return bypasses the role's verification" if not early else "verify_shuffle can return Ok without opening the keys and comparing hashes (verification skipped for some input)", site_of(vb, early[0]) if early else site_of(vb))
+    # inside the per-role verifiers
+    for h, nmin in (("h1_verify", 3), ("h2_verify", 1)):
+        b = async_body(facts, base + h)
+        if b is None:
+            ctx.missing(rule, h)
+            continue
+        ctx.count(bodies=1)
+        d = b.dominators()
+        gs = guards(b, r"ConstantTimeEq::ct_ne$|PartialEq::ne$")
+        oks = ok_blocks(b)
+        bad = [o for o in oks if not all(flow.dominates(d, ed[0], o) for _, _, ed, _ in gs)]
+        good = bool(oks) and len(gs) >= nmin and not bad
+        ctx.ob(rule, f"{h}:ok-behind-all-comparisons", good, f"every Ok lies behind the pass edge of all {len(gs)} comparisons" if good else f"{h} can return Ok without passing every hash comparison (early return / bypass)", site_of(b, bad[0]) if bad else site_of(b))
+    b3 = async_body(facts, base + "h3_verify")
+    if b3 is None:
+        ctx.missing(rule, "h3_verify")
+    else:
+        ctx.count(bodies=1)
+        d = b3.dominators()
+        sends = []
+        for bb, t in flow.find_calls(b3, re.compile(r"::send$")):
+            if len(t["args"]) >= 3 and any(c[1].endswith("compute_and_hash_tags") for c in walk_calls(flow.expr_of(b3, t["args"][2]))):
+                sends.append(bb)
+        oks = ok_blocks(b3)
+        # a send counts once its future is driven: joined (try_join) or awaited; require each send call itself to dominate Ok
+        bad = [o for o in oks if not all(flow.dominates(d, s, o) for s in sends)]
+        good = bool(oks) and len(sends) >= 3 and not bad
+        ctx.ob(rule, "h3_verify:ok-behind-all-sends", good, f"every Ok lies behind all {len(sends)} hash sends" if good else "h3_verify can return Ok without sending every hash (the peers' comparison would never complete or be skipped)", site_of(b3, bad[0]) if bad else site_of(b3))
